@@ -20,7 +20,7 @@ RULE = ('mode A: small concurrent programs (2-4 clients x 2-5 calls over 1-3 key
         'evaluations = histories checked; distinct_nontrivial = distinct schedule traces that contained at least one '
         'preemption inside an operation (mode A) plus free runs with overlapping operation pairs (mode B)')
 DISTINCT = ('shared_object_schedules', 'schedules_with_preemption_in_op', 'free_runs_with_overlap')
-REQUIRED = ('schedules_through_a_sharded_cache', 'fork_runs', 'shared_object_programs', 'shared_object_schedules_judged', 'schedules_interleaved_at_statement_level', 'statement_level_gates_passed', 'calls_joining_an_enclosing_transaction', 'schedules_with_rollbacks_of_waiting_calls', 'histories_checked', 'schedules_shared_object', 'schedules_separate_objects', 'lock_waits_observed',
+REQUIRED = ('lookups_overlapping_remove_and_store', 'schedules_through_a_sharded_cache', 'fork_runs', 'shared_object_programs', 'shared_object_schedules_judged', 'schedules_interleaved_at_statement_level', 'statement_level_gates_passed', 'calls_joining_an_enclosing_transaction', 'schedules_with_rollbacks_of_waiting_calls', 'histories_checked', 'schedules_shared_object', 'schedules_separate_objects', 'lock_waits_observed',
             'file_backed_values', 'free_runs_threads', 'free_runs_processes', 'lru_stat_schedules', 'expired_present_keys',
             'handles_opened_during_schedules', 'partly_consumed_iterations', 'timeouts_under_commit_contention')
 ASSUMPTIONS = ('threads are interleaved at SQL-statement and value-file-operation granularity (where diskcache\'s '
@@ -900,6 +900,13 @@ def run_shard(tier, seed, shard, nshards, res):
             mode_b(dc, sc, res, rng, seed * 100 + shard * 10 + i, topo,
                    'c05 B seed=%d shard=%d i=%d topo=%s' % (seed, shard, i, topo),
                    nclients=rng.randrange(3, 6), nops=rng.randrange(40, 90))
+        # a lookup that overlaps 'remove A, store B' by another client (the adversarial scheduler lets the other client
+        # finish right before the reader opens A's value file): A's value or a miss, never B's - the tier written for C02
+        from . import c02
+        for i in range(6 if tier == 'quick' else 80):
+            c02.shadow_race(dc, sc, res, common.rng_for(seed, 'c05r', shard, i), 'c05 shadow race seed=%d shard=%d i=%d' % (seed, shard, i))
+            res.count('lookups_overlapping_remove_and_store')
+        probe.install()
         for i in range(2 if tier == 'quick' else 12):
             forked_workers(dc, sc, res, common.rng_for(seed, 'c05e', shard, i), 'c05 E seed=%d shard=%d i=%d' % (seed, shard, i))
         for i in range(2 if tier == 'quick' else 12):
